@@ -17,7 +17,7 @@ for m in $names; do
     out=$(cd /verif && VERIF_SEED=$sd VERIF_REPO=$wt VERIF_NO_EVIDENCE=1 timeout 1800 /venv/bin/python run_check.py $pid 2>&1); rc=$?
     if [ $rc -eq 1 ]; then
       mkdir -p /verif/regress/$pid; k=0
-      for f in $(find /verif/replay -name "${pid}_*.json" -newer $stamp | head -2); do
+      for f in $(echo "$out" | sed -n 's/^VIOLATION property=[A-Z0-9]* replay=//p' | head -2); do
         k=$((k+1)); cp $f /verif/regress/$pid/${m}__$k.json
       done
       [ $k -gt 0 ] && { echo "$m: caught at seed $sd, $k inputs kept"; got=1; rm -f $stamp; break; }
